@@ -75,7 +75,7 @@ func (s *SignedLatency) OnPing(pingReqID uint32) error {
 	for _, v := range s.PingRequests {
 		latency := float32(v.End.Sub(v.Start).Microseconds())
 		latencies = append(latencies, latency)
-		if latency < min || min == 0 {
+		if len(latencies) == 1 || latency < min {
 			min = latency
 		}
 		if latency > max {
